@@ -63,7 +63,7 @@ sympy expressions over symbols, exact rationals (float constants are converted e
     negated predicates -> `BNot(..)`; negating an ordered float comparison assumes no NaN, recorded);
     `select` is `Sel(cond, a, b)`; branches/phis are handled by enumerating the (bounded) paths of the
     loop-free CFG, each path carrying its guard (a list of literals);
-  * intrinsics as listed symbols: `rcp_ss(a)`, `rsqrt_ss(a)` (x86 estimates, no axiom), `sqrt` (sympy's
+  * intrinsics as listed symbols: `rcp_ss(a)`, `rsqrt_ss(a)`, `rcp14_ss(a)`, `rsqrt14_ss(a)` (x86 estimates, no axiom), `sqrt` (sympy's
     own, so sqrt(x)^2 = x), `Sin`, `Cos` (axiom sin^2+cos^2=1 applied by `equal(..., trig=True)`),
     `fabs`, `copysign`, `round`, `floor`, `ceil`, `pow`, `exp`, `log`, `tan`, `acos`, `asin`, `atan`,
     `atan2`, `fmod`, `fmin/fmax` (minnum/maxnum), `smin/smax/umin/umax` as `Sel` over the comparison,
@@ -2619,6 +2619,15 @@ class Interp:
                 c = flit('olt', a0.term, b0.term) if k == 'min' else flit('olt', b0.term, a0.term)
                 t = mk_sel(c, a0.term, b0.term)
             return True, AggV([FpV(a0.bits, t)] + v.elems[1:])
+        m = re.match(r'^llvm\.x86\.avx512\.(rcp14|rsqrt14)\.s[sd]$', name)
+        if m and len(args) == 4:
+            # (a, b, src, mask): lane 0 = estimate of b[0] when mask bit 0 is set (else src[0]); upper lanes from a
+            a_, b_, src_, mk = args
+            mkc = self.as_int(mk).term if mk.kind in ('i', 'b') else None
+            if a_.kind != 'a' or b_.kind != 'a' or b_.elems[0].kind != 'f' or mkc is None or not mkc.is_Integer or not (int(mkc) & 1):
+                raise Undecided('%s with a non-constant or cleared mask' % name)
+            b0 = b_.elems[0]
+            return True, AggV([FpV(b0.bits, atom(m.group(1) + '_ss', b0.term))] + list(a_.elems[1:]))
         if name.startswith(('llvm.memcpy.', 'llvm.memmove.')) or name in ('memcpy', 'memmove'):
             d, s, n = args[0], args[1], args[2]
             if n.kind != 'i' or not n.term.is_Integer:
@@ -3141,6 +3150,16 @@ class Summary:
 
     def slots(self):
         return sorted(self.outs())
+
+    def undef_slots(self):
+        """slots that some path writes with an `undef` / poison value (the result of computing with a never-written vector lane
+        or object); such slots are absent from outs()"""
+        res = set()
+        for p in self.paths:
+            for slot, v in self.path_slots(p).items():
+                if v is not None and v.kind == 'u':
+                    res.add(slot)
+        return sorted(res)
 
     def values(self, slot):
         """[(guard, term)] of a slot over all paths; KeyError if no path writes it.  A location inside a zero-filled
